@@ -75,7 +75,8 @@ def canonical_class(obj):
     t = type(obj)
     name = t.__name__
     mod = t.__module__
-    if mod.startswith("BTrees.") and name.endswith("Py"):
+    if (mod.startswith("BTrees.") or mod == "sim.subcls") and \
+            name.endswith("Py"):
         name = name[:-2]
     return (mod, name)
 
@@ -85,6 +86,8 @@ def resolve_class(modname, name, impl):
     if mod is None:
         __import__(modname)
         mod = sys.modules[modname]
+    if modname == "sim.subcls":
+        return getattr(mod, name + ("Py" if impl == "py" else ""))
     if impl == "py" and modname.startswith("BTrees.") and \
             hasattr(mod, name + "Py"):
         return getattr(mod, name + "Py")
